@@ -6,8 +6,9 @@
 #   <seed-id> <property> rc=<rc> tags=<guard tags of the violations reported>
 # and removes the worktree and all scratch output afterwards.  Several seedruns may run in parallel.
 seed="$1"; tier="$2"; shift 2
+V="$(dirname "$(dirname "$(readlink -f "$0")")")"
 S=/tmp/seedrun/$seed
-patch=/verif/seeded/$seed/patch.diff
+patch=$V/seeded/$seed/patch.diff
 [ -f "$patch" ] || { echo "$seed: no patch"; exit 2; }
 rm -rf "$S"; mkdir -p "$S"
 git -C /repo worktree add -q --detach "$S/repo" HEAD || exit 2
@@ -17,7 +18,7 @@ git -C "$S/repo" apply "$patch" || { echo "$seed: patch does not apply"; exit 2;
 export VERIF_REPO="$S/repo" VERIF_SCRATCH="$S/scratch"
 mkdir -p "$S/scratch"
 for p in "$@"; do
-  out=$(cd /verif && ./check "$p" --tier "$tier" 2>"$S/err.txt"); rc=$?
+  out=$(cd "$V" && ./check "$p" --tier "$tier" 2>"$S/err.txt"); rc=$?
   tags=$(grep -o "guard '[^']*'" "$S/err.txt" | sort | uniq -c | awk '{print $3"x"$1}' | tr -d "'" | tr '\n' ',' )
   [ -z "$tags" ] && tags=$(echo "$out" | grep -o 'replay=[^ ]*' | head -3 | while read r; do python3 -c "import json,sys; d=json.load(open('${r#replay=}'.replace('replay=',''))); print(d.get('tag'))" 2>/dev/null; done | tr '\n' ',')
   toolerr=$(grep -c "TOOL ERROR" "$S/err.txt")
